@@ -115,15 +115,16 @@ func tryReplay(g *Gen, p *PropConfig, r *OblResult, verif, repo string) ReplayRe
 
 func runBounded(p *PropConfig, tier, verif, repo string) []BoundedResult {
 	var out []BoundedResult
-	if tier != "thorough" {
-		return nil
-	}
+	// bounded stand-ins run in both tiers (quick bound / thorough bound): they cover what the contracts
+	// do not reach (e.g. escapeReader.Read, the two-party composition) and are never counted as proved
 	for _, h := range p.Harness {
 		bound := h.BoundThorough
-		if bound == "" {
+		limit := 900 * time.Second
+		if tier != "thorough" || bound == "" {
 			bound = h.BoundQuick
+			limit = 180 * time.Second
 		}
-		run := runHarness(h, bound, verif, repo, 900*time.Second)
+		run := runHarness(h, bound, verif, repo, limit)
 		out = append(out, BoundedResult{Name: h.Name + " (" + h.File + ")", Bound: "VERIF_BOUND=" + bound + ": " + h.Describe, Output: "command: " + run.cmd + "\n" + run.output, OK: run.ok, Secs: run.secs})
 	}
 	return out
